@@ -40,7 +40,7 @@ PROPS = {
                 "contains an extremum query spanning >=3 knots and queries under a prefactor != 1 and under a negative prefactor. "
                 "Distinct = distinct plan text hash among non-trivial runs.",
         "states_measure": "same tuple as C09 (the cache state at which each integral/extremum query was asked)",
-        "irrelevant_probes": ["bit_exact_comparisons", "tolerance_comparisons_at_knots"],
+        "irrelevant_probes": ["bit_exact_comparisons", "tolerance_comparisons_at_knots", "comparisons_with_a_pristine_process", "same_argument_asked_of_another_table_first"],
         "components": {"real": ["libphysica::Interpolation", "libphysica::Interpolation_2D"] + REAL_ALL,
                        "stub": ["std::random_device::_M_getval and clock/rand symbols (link-time wrap; must never fire in this engine)"]},
         "assumptions": ["the reference takes Interpolate() as the definition of the curve (its correctness is C01, not decided here)",
